@@ -24,7 +24,6 @@ Theorem roundtrip_deep :
     length (s_time s1) = length (s_time s2) ->
     cfg_wf c (length (s_time s1)) = true ->
     snaps_in_range s1 s2 = true ->
-    (hello = true -> s_m s1 = 0) ->
     let last := if hello then hello_data c s1 else mk_data c s1 in
     exists u, calc_update c false (mk_data c s2) last = Some u /\
       roundtrip_deep_ok c s2 (client_apply c u (mirror c s1) (s_q s1) (s_m s1)) = true.
@@ -38,7 +37,6 @@ Theorem checksum_detects :
     length (s_time s1) = length (s_time s2) ->
     cfg_wf c (length (s_time s1)) = true ->
     snaps_in_range s1 s2 = true ->
-    (hello = true -> s_m s1 = 0) ->
     length t = length (mirror c s1) ->
     Forall (fun x => x < w64) t -> q < w64 -> m < w32 ->
     drifted c s1 t q m = true ->
@@ -57,7 +55,6 @@ Theorem roundtrip_shallow_values :
     Forall (fun x => x < w64) (s_time s1) -> Forall (fun x => x < w64) (s_time s2) ->
     s_q s1 <= s_q s2 -> s_q s2 - s_q s1 < w16 -> s_q s2 < w64 ->
     s_m s1 <= s_m s2 -> s_m s2 - s_m s1 < w8 -> s_m s2 < w32 ->
-    (hello = true -> s_m s1 = 0) ->
     length t = length (mirror c s1) -> parities t = parities (mirror c s1) ->
     Forall (fun x => x < w64) t ->
     let last := if hello then hello_data c s1 else mk_data c s1 in
@@ -144,18 +141,19 @@ Theorem shallow_accept_refuted_nosync :
 Proof. exact C10Proofs.shallow_accept_refuted_nosync_lemma. Qed.
 Print Assumptions shallow_accept_refuted_nosync.
 
-(* Hello path with a non-zero machine tick: wrong machine tick and rejected *)
-Theorem hello_machtick_refuted :
+(* Hello path with a non-zero machine tick: the former defect witness now
+   round-trips (RemoteHello memorises the machine tick) *)
+Theorem hello_machtick_roundtrip :
   exists (c : cfg) (s1 s2 : snap),
     shallow c = false /\
     length (s_time s1) = length (s_time s2) /\
     cfg_wf c (length (s_time s1)) = true /\
     snaps_in_range s1 s2 = true /\
     s_m s1 = 1 /\ s_m s2 = 1 /\
-    exists u t' q' m',
+    exists u,
       calc_update c false (mk_data c s2) (hello_data c s1) = Some u /\
-      client_apply c u (mirror c s1) (s_q s1) (s_m s1) = Some (t', q', m', false) /\
-      m' <> s_m s2 /\
-      roundtrip_deep_ok c s2 (client_apply c u (mirror c s1) (s_q s1) (s_m s1)) = false.
-Proof. exact C10Proofs.hello_machtick_refuted_lemma. Qed.
-Print Assumptions hello_machtick_refuted.
+      client_apply c u (mirror c s1) (s_q s1) (s_m s1)
+      = Some (mirror c s2, s_q s2, s_m s2, true) /\
+      roundtrip_deep_ok c s2 (client_apply c u (mirror c s1) (s_q s1) (s_m s1)) = true.
+Proof. exact C10Proofs.hello_machtick_roundtrip_lemma. Qed.
+Print Assumptions hello_machtick_roundtrip.
